@@ -305,8 +305,16 @@ def impl_hist(case):
             step["changed"] = after != before
         obs["steps"].append(step)
     obs["net"] = rig.net()
-    obs["subs"] = rig.subs
+    obs["subs"] = list(rig.subs)
     obs["sub_recv_ok"] = rig.sub_recv_ok
+    # the client connects a second time (broker came back / the application calls start() again): whatever the
+    # first connect subscribed must be asked for again (a broker that lost the session has none of it)
+    if obs["escaped"] is None:
+        try:
+            rig.connect()
+            obs["init2"] = [t for t, _ in rig.subs[len(obs["subs"]):]]
+        except Exception as exc:
+            obs["escaped"] = ["second connect", exc_name(exc)]
     if fname:
         for p in (fname, fname + ".bak"):
             if os.path.exists(p):
@@ -398,6 +406,10 @@ def monitor_hist(case, obs):
         return "subscribe/missing", f"not subscribed: {missing[:4]} (network {obs['net']}, persistence {case['pers']})"
     if not obs.get("sub_recv_ok", True):
         return "subscribe/callback", "subscribe callback did not receive transport.recv"
+    if "init2" in obs:
+        lost = sorted({t for t, _ in obs.get("init", [])} - set(obs["init2"]))
+        if lost:
+            return "subscribe/second-connect", f"a second connect does not subscribe {lost[:4]} again (first connect did)"
     return None
 
 
